@@ -58,6 +58,7 @@ type concShared struct {
 	requests  [][]byte
 	anchored  []*operation.AnchoredOperation
 	updates   []*operation.AnchoredOperation // second operation of each DID (signed)
+	updCreate []*operation.AnchoredOperation // the create each update follows (cold runs derive the state inside the task)
 	states    []*protocol.ResolutionModel    // state of each DID after its create
 	state     *protocol.ResolutionModel
 	docs      []map[string]any
@@ -101,11 +102,13 @@ func (w *World) newConcShared(stepSeed string) *concShared {
 		ust.Builder, ust.HasFrom, ust.HasUntil = "raw", false, false
 		if uop := wl.build(0, &ust); uop != nil {
 			c.requests = append(c.requests, uop.Bytes)
-			st0, aerr := w.Applier.Apply(c.anchored[len(c.anchored)-1], &protocol.ResolutionModel{})
-			if aerr == nil {
+			upd := &operation.AnchoredOperation{Type: operation.Type(uop.Truth.Kind), UniqueSuffix: uop.Truth.Suffix,
+				OperationRequest: uop.Bytes, TransactionTime: uint64(Epoch + 100 + int64(i))}
+			if s.Cold {
+				c.updates, c.updCreate = append(c.updates, upd), append(c.updCreate, c.anchored[len(c.anchored)-1])
+			} else if st0, aerr := w.Applier.Apply(c.anchored[len(c.anchored)-1], &protocol.ResolutionModel{}); aerr == nil {
 				c.states = append(c.states, st0)
-				c.updates = append(c.updates, &operation.AnchoredOperation{Type: operation.Type(uop.Truth.Kind), UniqueSuffix: uop.Truth.Suffix,
-					OperationRequest: uop.Bytes, TransactionTime: uint64(Epoch + 100 + int64(i))})
+				c.updates = append(c.updates, upd)
 			}
 		}
 		var other []string
@@ -125,7 +128,7 @@ func (w *World) newConcShared(stepSeed string) *concShared {
 		c.didDocs = append(c.didDocs, map[string]any{"keys": []any{map[string]any{"id": fmt.Sprintf("k%d", i), "type": "JsonWebKey2020", "key": i, "purposes": []any{"authentication", "assertionMethod"}},
 			map[string]any{"id": "second", "type": "JsonWebKey2020", "key": i + 3, "purposes": []any{"keyAgreement"}}}, "upd": i + 5, "rec": i + 16})
 	}
-	if len(c.anchored) > 0 {
+	if len(c.anchored) > 0 && !s.Cold {
 		c.state, _ = w.Applier.Apply(c.anchored[0], &protocol.ResolutionModel{})
 	}
 	return c
@@ -195,6 +198,12 @@ func (c *concShared) run(call concCall) (out string) {
 		if !ok {
 			return "none"
 		}
+		if cr, cold := pick(c.updCreate, call.I); cold {
+			var cerr error
+			if st0, cerr = w.Applier.Apply(cr, &protocol.ResolutionModel{}); cerr != nil {
+				return "create-error"
+			}
+		}
 		rm, err := w.Applier.Apply(u, st0)
 		return digest(rm, err)
 	case "compose":
@@ -211,10 +220,14 @@ func (c *concShared) run(call concCall) (out string) {
 		res, err := w.Composer.ApplyPatches(libDoc, lps)
 		return digest(res, err)
 	case "transform":
-		if c.state == nil {
+		st := c.state
+		if st == nil && w.Plan.Swarm.Cold && len(c.anchored) > 0 {
+			st, _ = w.Applier.Apply(c.anchored[0], &protocol.ResolutionModel{})
+		}
+		if st == nil {
 			return "none"
 		}
-		rm := *c.state // distinct input per call: the lists are copied
+		rm := *st // distinct input per call: the lists are copied
 		a, _ := pick(c.anchored, call.I)
 		b, _ := pick(c.anchored, call.I+1)
 		rm.PublishedOperations = []*operation.AnchoredOperation{b, a}
@@ -365,9 +378,12 @@ func (w *World) execConcurrent() {
 	}
 	// this run signs with key material the process has not seen before
 	w.Pool = w.Pool.WithFresh(core.NewRNG(w.Plan.Seed).Stream("c20/fresh-keys"), 4)
+	if w.Plan.Swarm.Cold {
+		w.T.Probe("cold_start")
+	}
 	shared := w.newConcShared("0")
 	s := &coSched{planned: append([]int{}, w.Plan.Schedule...), rngState: core.NewRNG(w.Plan.Seed).Stream("sched").Uint64(),
-		switchPc: uint64(w.Plan.Swarm.NetMaxDelay), maxSteps: 60000, sites: map[string]int{}}
+		switchPc: uint64(w.Plan.Swarm.NetMaxDelay), maxSteps: 60000, sites: map[string]int{}, flushPools: w.Plan.Swarm.Cold || w.Plan.Swarm.FlushPools}
 	if s.switchPc == 0 {
 		s.switchPc = 100
 	}
@@ -409,6 +425,12 @@ func (w *World) execConcurrent() {
 		w.T.Fault("lock_contention")
 	}
 	w.T.Fault("preemptions")
+	if s.gwSwitches > 0 {
+		w.T.Probe("left_writer_at_global_write")
+	}
+	if s.flushes > 0 {
+		w.T.Count("pool_flushes", uint64(s.flushes))
+	}
 	w.Plan.Schedule = s.choices // the explicit schedule makes the replay file self-contained
 	w.T.Event("schedule fp=%016x steps=%d contended=%d", s.fp, s.steps, s.contended)
 	if s.deadlock != "" {
@@ -468,8 +490,11 @@ func stamp(s *coSched) int64 {
 var concComps = []string{"parse", "reveal", "apply", "apply2", "apply2", "compose", "transform", "resolve", "process", "vdr-read", "vdr-create", "verprovider"}
 
 // GenConcurrent generates C20 plans: 2-6 tasks of 3-10 calls on shared instances; overlapping registry names.
-func GenConcurrent(seed uint64, pool *Pool) *Plan {
+func GenConcurrent(seed uint64, cold bool, pool *Pool) *Plan {
 	p, r := basePlan("C20", "concurrent", seed, pool)
+	if cold {
+		p.Profile, p.Swarm.Cold = "concurrent-cold", true
+	}
 	p.Swarm.NetMaxDelay = core.Pick(r, []int{20, 60, 150, 400}) // pre-emption probability (1/1000) at plain yield points
 	names := []string{"did:a", "did:b", "did:a:b"}
 	versions := []string{"2.0", "3.1", "4.0"}
@@ -514,17 +539,25 @@ func init() {
 			"version provider, namespace provider and client registry; at every rewriter-inserted point (each function entry of pkg/**, each Lock / RLock / Unlock) a seeded " +
 			"schedule picks the next task, tasks whose TryLock fails are parked until an unlock. Oracles: result == result of the same call made alone beforehand; registry " +
 			"histories (invoke / return stamped with the scheduler's event counter) linearizable against a sequential map (porcupine); -race build with the baton hand-off " +
-			"hidden from the detector (a data race is a deterministic function of the plan); deadlock. distinct_nontrivial = distinct interleavings (hash of the (task, site) sequence)",
+			"hidden from the detector (a data race is a deterministic function of the plan); deadlock. Cold starts (64 / 4000 extra cases): each is the only run of a fresh process and " +
+			"calls nothing of the library before its tasks start, so first-use initialisation of process-wide state happens under concurrency. distinct_nontrivial = distinct interleavings (hash of the (task, site) sequence)",
 		Cases: func(master uint64, tier string) []Case {
-			n := 1200
+			n, cold := 1200, 64
 			if tier == "thorough" {
-				n = 60000
+				n, cold = 60000, 4000
 			}
-			return seqCases(master, n, nil)
+			cs := seqCases(master, n, nil)
+			// cold starts: each is run by the driver as the only case of a fresh process
+			for _, c := range seqCases(master^0xc01d, cold, nil) {
+				c.Variant = 1
+				cs = append(cs, c)
+			}
+			return cs
 		},
-		Gen:            func(c Case, pool *Pool) *Plan { return GenConcurrent(c.Seed, pool) },
+		Cold:           func(c Case) bool { return c.Variant == 1 },
+		Gen:            func(c Case, pool *Pool) *Plan { return GenConcurrent(c.Seed, c.Variant == 1, pool) },
 		Exec:           func(p *Plan, pool *Pool, t *core.Trace) { execConcPlan(p, pool, t) },
-		RequiredProbes: map[string][]string{"quick": {"lock_contended"}, "thorough": {"lock_contended"}},
+		RequiredProbes: map[string][]string{"quick": {"lock_contended", "cold_start"}, "thorough": {"lock_contended", "cold_start"}},
 		Components: map[string]string{"operationparser, operationapplier, doccomposer, didtransformer, dochandler, VDR, verprovider, nsprovider, clientregistry, log": "real (rewritten copy: yield / lock hooks inserted by tools/rewrite)",
 			"Go scheduler": "simulated (cooperative baton scheduler driven by the seed)", "race detector": "real (-race), baton hidden with runtime.RaceDisable"},
 		Assumptions: append([]string{"interleavings are explored at the granularity of inserted points (function entries and lock operations); finer interference is left to the happens-before race oracle",
